@@ -209,7 +209,9 @@ impl Scenario for C19 {
         if thorough { 20_000 } else { 320 }
     }
     fn timeout_ms(&self) -> u64 {
-        120_000
+        // thorough-tier runs (up to 30 blocks of up to 3000 items with forced
+        // collections) take minutes on a loaded machine; slow is not hung
+        600_000
     }
 
     fn child(&self, spec: &Spec) {
@@ -350,18 +352,19 @@ impl Scenario for C19 {
             }
             vmh::set_context(&if jit_struct_used { "jit/mixed".to_string() } else { format!("{}/collect", tier) });
             let vio = |name: &str| if jit_struct_used { format!("C19/jit/mixed/{}", name) } else { format!("C19/{}", name) };
-            if !cleared_weak.is_empty() {
+            if !cleared_weak.is_empty() && bi < 8 {
                 // live boxes take over freed slots - among them, sooner or later, the
                 // slot a cleared weak box used to watch; the weak box must not mistake
                 // the new tenant for its target
-                let reads: Vec<String> = cleared_weak.iter().map(|n| format!("(weak-box-value {})", n)).collect();
+                // (bounded: the four most recent ones, in the first eight blocks of a run)
+                let reads: Vec<String> = cleared_weak.iter().rev().take(4).map(|n| format!("(weak-box-value {})", n)).collect();
                 // short-lived boxes walk the allocator's cursor once around the heap; after
                 // every single allocation the cleared weak boxes are read again
                 let src = format!(
                     "(define (weak-probe n) (let lp ((i 0)) (if (= i n) '() (begin (box 424242) (let ((seen (list {}))) (if (equal? seen '({})) (lp (+ i 1)) (cons i seen)))))))\n(weak-probe {})",
                     reads.join(" "),
                     vec!["#f"; reads.len()].join(" "),
-                    (2 * engine.verif_heap_stats().value_slots).min(60_000)
+                    (2 * engine.verif_heap_stats().value_slots).min(30_000)
                 );
                 // no forced collections while the probe allocates: a collection would
                 // only make the tenants unreachable again (and costs a full mark each)
